@@ -657,10 +657,10 @@ func (s *Store) openCollection(
 			return nil, erro
 		}
 
-		if storeSnapshotInit != nil {
-			storeSnapshotInit.Close()
-			storeSnapshotInit = nil
-		}
+		// The collection owns storeSnapshotInit (as its initial lower
+		// level snapshot) and closes it when it is replaced or when the
+		// collection is closed; closing it here as well would release
+		// it while the collection and its snapshots still read from it.
 
 		return ss, erro
 	}
